@@ -84,4 +84,98 @@ CHECKS = {
                         "FDT packet count per instance is an oracle read from the FTI of the FDT packets", "TOIs are unique among live objects (C15)"],
         "trusted_base": ["model: coq/theories/Model/SenderCtl.v (filedesc.rs TransferInfo/FileDesc, fdt.rs, sendersession.rs, sender.rs read)"],
     },
+    "C05": {
+        "runs": [{"subcmd": "path", "shards_quick": 4, "shards_thorough": 8}],
+        "parallel": 8,
+        "rule": "W lines: one real FLUTE session per line (flute Sender -> ALC packets, FDT instance re-packetised with flute's "
+                "new_alc_pkt after its Content-Location attribute was replaced by the string under test -> flute Receiver with "
+                "ObjectWriterFSBuilder) into a fresh sandbox tree with canary files, the worker process chroot'ed into a unique "
+                "temporary directory so that every path it can name is observed. Locations: the D11 witnesses and the test-suite "
+                "location with every outcome and destination form; the exhaustive grid 9 prefixes (file:///, file://host/, http://h/, "
+                "x:, x:/, x://h/, none, /, //) x segment lists over {x, ., .., empty, %2e%2e, ..%2f, a\\..\\b, absolute sandbox path} "
+                "of length <= 3 with each of 5 outcomes (complete, complete with late FDT, wrong MD5 = error, lost packet + close flag "
+                "= interrupted, receiver dropped = error) and rotating destination form (absolute, relative, ./relative, trailing "
+                "slash, '..' from a subdirectory, path through sub/../); thorough adds length <= 5 (337041 strings, outcome and form "
+                "rotating) and length <= 2 with the full product; plus seeded random strings built from URL/path/escape tokens "
+                "(quick 6000, thorough 200000). A case is non-trivial when the filesystem writer was created and received the "
+                "location (cl != NONE); distinct = distinct input lines (destination form, outcome, location template), counted per "
+                "harness run (thorough runs the dev and the release profile on the same inputs).",
+        "exhaustive_quick": True, "exhaustive_thorough": True,
+        "level_text": "Theorems C05_* prove, for every destination directory, Content-Location string, URL-parser outcome (unconstrained oracle), writer call sequence and file-system outcome, that every create/write/remove and every directory created by the filesystem writer is strictly inside the destination directory, that unmappable locations fail without any file-system call, and that only created files are removed; the model is tied to objectwriterfs.rs by real FLUTE sessions into a chroot-ed sandbox with canaries (observed file-tree changes vs predicted).",
+        "explanation": "Theorems C05_* are proved for all destination directories, Content-Location strings, url-parser outcomes, "
+                       "call sequences and file-system outcomes on the Gallina model of objectwriterfs.rs (with fixes/D11 applied) and "
+                       "of Unix std::path. The check ties the model to the code by running real sessions: the Coq-defined predicates "
+                       "P_C05_confined / P_C05_complete_stored / P_C05_failed_leaves_no_file are evaluated on the observed changes of "
+                       "the file tree, and the extracted model (path mapping, writer state machine, predicted net change) is compared "
+                       "with the observed open() results and changes; url::Url::parse outcomes are recorded per case and fed to the "
+                       "model as an unconstrained oracle.",
+        "assumptions": ["model of objectwriterfs.rs and of std::path (components/join/parent/strip_prefix, Unix) is hand-written; "
+                        "faithfulness established by the correspondence run only",
+                        "no symbolic links inside the destination directory; the kernel resolves a path as the lexical walk of its "
+                        "components (validated on every case: dest must walk to the real directory, predicted = observed changes)",
+                        "the url crate is not modelled: every theorem quantifies over all parse outcomes",
+                        "the destination directory exists (ObjectWriterFSBuilder::new checks is_dir)"],
+        "trusted_base": ["model: coq/theories/Model/Path.v (components, join, parent_comps, strip_slash, map_path, wstep/wrun, walk, predict)",
+                         "harness sandbox: chroot into a unique temp dir (fallback without CAP_SYS_CHROOT: unconfined, locations that "
+                         "could leave the sandbox are skipped and counted as skipped-unconfined)"],
+    },
+    "C09": {
+        "extract": "C09", "driver": "c09",
+        "runs": [{"subcmd": "recv", "shards_quick": 4, "shards_thorough": 16, "driver_args": ["c09"]}],
+        "rule": "V lines: one whole session per line - a real Sender (No-Code, RS28, RS28-US, RaptorQ, Raptor; E 4..16, B 1..6, parity 0..2; content encodings; in-band / FDT-only FTI and CENC; both publish modes; interleave 1..3; 1..3 objects of 0..3 blocks incl. empty; transfer count 1..2; optional rewriting of the FDT instances to strip FEC-OTI or Transfer-Length attributes as a foreign sender would) produces the genuine packets, a channel transforms them (in order, permutation, subset, duplication, loss+duplication, payload bit flips, payload truncation, late join), a real Receiver with a scripted monitoring writer builder (StoreObject / ObjectAlreadyReceived / Abort per creation, open failing, write failing at call k) consumes them, with cleanup and receiver drop at arbitrary points; each case runs in a worker process with a watchdog (HANG) and an address-space limit. The extracted model is stepped on the parsed packets; per-event result, object counts and per-writer call sequences (consecutive writes merged) are compared. Non-trivial = at least one writer was created and the model did not abstain (FEC reconstruction / inflate oracle undefined); distinct = distinct session lines. Predicate: P_C09_writer on every writer's recorded calls (typestate open . write* . terminal?, writes a prefix of the content, complete only with the whole content, terminal call before drop).",
+        "level_text": 'Proved for all states/oracles: an object that left the receiving state ignores every packet (nothing after the terminal call); complete()/error() issue exactly one terminal call; dropping gives an open writer its terminal call; the protocol automaton has no transition after a terminal call. The history-level theorem C09_writer_protocol_full is stated and evaluated on every run, not yet proved (partial).',
+        "explanation": "P_C09_writer on every writer's recorded calls (typestate open . write* . terminal?, writes a prefix of the content, complete only with the whole content, terminal call before drop).",
+        "assumptions": ["FEC reconstruction (Reed-Solomon, RaptorQ, Raptor) is an oracle answered from the session's ground truth; the model abstains where it is undefined",
+                        "inflate is an oracle (whole content once all transfer bytes are in); partial inflate output is not compared",
+                        "FdtInstance::parse is an oracle (table of flute's own parse results for the session's instances)",
+                        "packets are compared after flute's own ALC parser (its correctness is C06's subject)"],
+        "trusted_base": ["model: coq/theories/Model/ObjRecv.v, Recv.v (objectreceiver.rs, blockdecoder.rs, blockwriter.rs, nocode.rs, rscodec.rs control part, receiver.rs, fdtreceiver.rs)"],
+    },
+    "C03": {
+        "extract": "C09", "driver": "c09",
+        "runs": [{"subcmd": "recv", "shards_quick": 4, "shards_thorough": 16, "driver_args": ["c03"]}],
+        "rule": "V lines: one whole session per line - a real Sender (No-Code, RS28, RS28-US, RaptorQ, Raptor; E 4..16, B 1..6, parity 0..2; content encodings; in-band / FDT-only FTI and CENC; both publish modes; interleave 1..3; 1..3 objects of 0..3 blocks incl. empty; transfer count 1..2; optional rewriting of the FDT instances to strip FEC-OTI or Transfer-Length attributes as a foreign sender would) produces the genuine packets, a channel transforms them (in order, permutation, subset, duplication, loss+duplication, payload bit flips, payload truncation, late join), a real Receiver with a scripted monitoring writer builder (StoreObject / ObjectAlreadyReceived / Abort per creation, open failing, write failing at call k) consumes them, with cleanup and receiver drop at arbitrary points; each case runs in a worker process with a watchdog (HANG) and an address-space limit. The extracted model is stepped on the parsed packets; per-event result, object counts and per-writer call sequences (consecutive writes merged) are compared. Non-trivial = at least one writer was created and the model did not abstain (FEC reconstruction / inflate oracle undefined); distinct = distinct session lines. Predicate: P_C03_writer: a writer that received complete was written exactly the sender's bytes (genuine payloads, or altered payloads with an announced and checked MD5); never both complete and failed.",
+        "level_text": 'Proved: no transition after a terminal call (never both), closed objects ignore packets. C03_complete_implies_exact_full is stated and evaluated on every run over permutations, sub-multisets, duplications and payload alterations, not yet proved (partial). Byte-exactness under alteration rests on MD5 (named, not proved).',
+        "explanation": "P_C03_writer: a writer that received complete was written exactly the sender's bytes (genuine payloads, or altered payloads with an announced and checked MD5); never both complete and failed.",
+        "assumptions": ["FEC reconstruction (Reed-Solomon, RaptorQ, Raptor) is an oracle answered from the session's ground truth; the model abstains where it is undefined",
+                        "inflate is an oracle (whole content once all transfer bytes are in); partial inflate output is not compared",
+                        "FdtInstance::parse is an oracle (table of flute's own parse results for the session's instances)",
+                        "packets are compared after flute's own ALC parser (its correctness is C06's subject)"],
+        "trusted_base": ["model: coq/theories/Model/ObjRecv.v, Recv.v (objectreceiver.rs, blockdecoder.rs, blockwriter.rs, nocode.rs, rscodec.rs control part, receiver.rs, fdtreceiver.rs)"],
+    },
+    "C18": {
+        "runs": [{"subcmd": "multi", "shards_quick": 4, "shards_thorough": 16}],
+        "parallel": 4,
+        "rule": "G lines: EXHAUSTIVE sequences of listen operations through MultiReceiver (filtering on), each followed by a probe "
+                "packet for every (endpoint, TSI) of the universe 2 group addresses x source/no-source x 2 TSIs: all 24 operations "
+                "(add/remove listen_tsi x 8 pairs, add/remove listen_all_tsi x 4 endpoints) to depth 4 (quick) / 5 (thorough), the 16 "
+                "one-TSI operations to depth 5 (quick), the 12 one-group-address operations to depth 6 (thorough), the 8 one-group-"
+                "one-TSI operations to depth 6 / 7; non-trivial = some probe accepted and "
+                "some rejected. M lines: seeded operation sequences (listen ops, set_tsi_filtering, add/remove listener, cleanup, "
+                "synthetic packets incl. close-session and garbage datagrams; a tenth with a 20 ms session time-out and real sleeps) "
+                "with time-stamped per-operation observations; non-trivial = a packet processed and a listener event seen. "
+                "I lines: 2..4 real sender sessions (equal TSIs on distinct endpoints, distinct TSIs on one endpoint), random and "
+                "round-robin merges, ALL merges of the first 5 (quick) / 6 (thorough) packets of two sessions, close-session packets at random points and at EVERY index 0..23 of a schedule, cleanup / "
+                "expiry, optional filtering; each run is repeated once per session with only that session's packets and compared; "
+                "non-trivial = at least two sessions delivered a complete object. X lines: 50..2000 sessions whose time-outs are "
+                "crossed while cleanup() runs (D24). distinct = digest of the input part of the line.",
+        "exhaustive_quick": True, "exhaustive_thorough": True,
+        "level_text": "Theorems C18_* (generic in the per-session machine): TSI filter = saturating reference counts for every history; a packet is processed iff the filter accepts it; demultiplexing isolation for every interleaving of any number of sessions; a push touches only its own (endpoint,TSI); listeners see exactly one open per session creation and one close per session end (close packet, expiry, drop). Tied to multireceiver.rs/tsifilter.rs by exhaustive listen-operation sequences with probes, interleaved real sessions and real short sleeps for the Instant-based expiry.",
+        "explanation": "Theorems C18_* proved for all operation lists / interleavings on the Gallina model of tsifilter.rs and "
+                       "multireceiver.rs (generic in the per-session machine); the extracted model replays every harness line "
+                       "operation by operation (results, listener notifications, listener ids, filter decisions) and the "
+                       "Coq-defined predicates P_C18_filter / _processed / _listener_trace / _isolation / _writer_args are evaluated "
+                       "on the implementation's observations. Expiry uses Instant::now() inside flute: the harness sleeps for real "
+                       "and the set of expired sessions is taken from the observation, bounded by the measured time stamps.",
+        "assumptions": ["models of tsifilter.rs / multireceiver.rs are hand-written; faithfulness established by the correspondence run only",
+                        "endpoint strings are modelled as numbers (used for equality/hashing only)",
+                        "the per-session Receiver is a parameter of the model; 'writer callbacks carry the session's own endpoint and TSI' "
+                        "is proved for the multi-receiver under the explicit hypothesis that a Receiver reports the key it was created "
+                        "with, and checked on the real Receiver by P_C18_writer_args",
+                        "u64 counters (filter reference counts, listener ids): overflow = panic in the model, excluded for < 2^64 operations",
+                        "model of cleanup() is the code after fixes/D24-cleanup-single-expiry-read.patch"],
+        "trusted_base": ["model: coq/theories/Model/TsiFilter.v, coq/theories/Model/Multi.v",
+                         "spec: coq/theories/Spec/C18Spec.v (saturating counts; (open closed)* words; per-key projections)"],
+        "coq_timeout": 1500,
+    },
 }
